@@ -337,6 +337,20 @@ pub fn gen_bushy_value(g: &mut Gen) -> Item {
 /// the crate's encoders emit, bare or in the wrappers the registered-but-uninterpreted parameters
 /// give it (`cnf` = {1: COSE_Key} / {2: Encrypted_COSE_Key} / {3: kid}).  Opaque means opaque:
 /// nothing in it is for the crate to interpret, normalise or police.
+/// Inside an opaque value a protected slot is just a byte string.
+fn flatten_wrapped(i: &mut Item) {
+    match i {
+        Item::Wrapped(w) => *i = Item::Bytes(w.content()),
+        Item::Map(m) => m.iter_mut().for_each(|(k, x)| {
+            flatten_wrapped(k);
+            flatten_wrapped(x)
+        }),
+        Item::Array(a) => a.iter_mut().for_each(flatten_wrapped),
+        Item::Tag(_, x) => flatten_wrapped(x),
+        _ => {}
+    }
+}
+
 pub fn gen_foreign_structure(g: &mut Gen) -> Item {
     let mut none = Faults::none();
     let mut v = match g.below(6) {
@@ -369,20 +383,7 @@ pub fn gen_foreign_structure(g: &mut Gen) -> Item {
         }
     }
     shuffle(g, &mut v);
-    // (inside an opaque value a protected slot is just a byte string)
-    fn flatten(i: &mut Item) {
-        match i {
-            Item::Wrapped(w) => *i = Item::Bytes(w.content()),
-            Item::Map(m) => m.iter_mut().for_each(|(k, x)| {
-                flatten(k);
-                flatten(x)
-            }),
-            Item::Array(a) => a.iter_mut().for_each(flatten),
-            Item::Tag(_, x) => flatten(x),
-            _ => {}
-        }
-    }
-    flatten(&mut v);
+    flatten_wrapped(&mut v);
     match g.below(4) {
         0 => v,
         1 => Item::Map(vec![(Item::Int(1), v)]),
@@ -1346,15 +1347,27 @@ pub fn gen_claims(g: &mut Gen, f: &mut Faults) -> Item {
         // the confirmation claim carries a key, an encrypted key or a key id; other claims anything
         let v = if l == Item::Int(8) && g.bool() {
             let mut none = Faults::none();
-            match g.below(4) {
+            match g.below(6) {
                 0 => Item::Map(vec![(Item::Int(3), Item::Bytes(g.small_bytes()))]),
                 1 => Item::Map(vec![(Item::Int(2), Item::Array(vec![Item::Bytes(vec![0xa1, 0x01, 0x01]), Item::Map(vec![(Item::Int(5), Item::Bytes(g.nonempty_bytes()))]), Item::Bytes(g.small_bytes())]))]),
+                // (opaque all the same: a member 1 that is almost a key, or no key at all, is still a claim value)
+                2 => {
+                    let mut k = gen_key(g, &mut Faults::one());
+                    flatten_wrapped(&mut k);
+                    Item::Map(vec![(Item::Int(1), k)])
+                }
+                3 => {
+                    let mut h = gen_header(g, &mut none, 0);
+                    flatten_wrapped(&mut h);
+                    Item::Map(vec![(Item::Int(1), h)])
+                }
                 _ => {
                     let mut k = gen_key(g, &mut none);
                     if let Item::Map(m) = &mut k {
                         let p = g.permutation(m.len());
                         *m = p.into_iter().map(|i| m[i].clone()).collect();
                     }
+                    flatten_wrapped(&mut k);
                     Item::Map(vec![(Item::Int(1), k)])
                 }
             }
